@@ -253,7 +253,11 @@ def run_tunnel(case):
         def respond(req, s, n):
             if use_proxy and n == 0:
                 reason = {200: "Connection established"}.get(status, "X")
-                return [f"HTTP/1.1 {status} {reason}\r\n".encode() + (b"Proxy-Agent: sim\r\n" if case.get("phdr") else b"") + b"\r\n"]
+                reply = f"HTTP/1.1 {status} {reason}\r\n".encode() + (b"Proxy-Agent: sim\r\n" if case.get("phdr") else b"") + b"\r\n"
+                cut = case.get("reply_cut")  # how the proxy's reply is cut into segments must not matter
+                if cut is not None and 0 < len(reply) - cut < len(reply):
+                    return [reply[: len(reply) - cut], reply[len(reply) - cut:]]
+                return [reply]
             return [simnet.ok_response(req)]
 
         return simnet.HttpPeer(respond)
@@ -428,7 +432,7 @@ def tunnels(draw):
         "auth": draw(st.sampled_from([None, None, ["user", "pass"], ["u", "p:w"], ["name", "secret word"], ["u" * 30, "p" * 27], ["u" * 30, "p" * 28],
                                       ["a-rather-long-user-name@corp.example", "an even longer pass phrase with blanks 0123456789 0123456789 0123456789"]])),
         "api": draw(st.sampled_from(["connect", "create_connection"])), "lower": draw(st.booleans()), "envport": draw(st.booleans()),
-        "phdr": draw(st.booleans()),
+        "phdr": draw(st.booleans()), "reply_cut": draw(st.sampled_from([None, None, 1, 2, 3, 4, 5, 10, 20])),
     }
     if draw(st.integers(0, 3)) == 0:
         return {"host": host, "redirect_to": draw(st.sampled_from(NAMES + IP_HOSTS[:6] + ["example.com", "api.example.com", "badexample.com"])),
